@@ -228,7 +228,10 @@ type knownFinding struct {
 }
 
 func loadKnown() []knownFinding {
-	f, err := os.Open(filepath.Join(verifDir(), "known_findings.jsonl"))
+	// One finding per line:
+	//   fixed: property=<id> <commit> <what failed> ## {"signature":…,"replay":…}
+	//   known: property=<id> <what fails> ## {"signature":…,"replay":…}
+	f, err := os.Open(filepath.Join(verifDir(), "known_findings.txt"))
 	if err != nil {
 		return nil
 	}
@@ -241,10 +244,25 @@ func loadKnown() []knownFinding {
 		if line == "" || strings.HasPrefix(line, "#") {
 			continue
 		}
-		var k knownFinding
-		if json.Unmarshal([]byte(line), &k) == nil {
-			out = append(out, k)
+		head, meta, ok := strings.Cut(line, " ## ")
+		if !ok {
+			continue
 		}
+		var k knownFinding
+		if json.Unmarshal([]byte(meta), &k) != nil {
+			continue
+		}
+		status, rest, _ := strings.Cut(head, ":")
+		k.Status = strings.TrimSpace(status)
+		for _, tok := range strings.Fields(rest) {
+			if v, ok := strings.CutPrefix(tok, "property="); ok {
+				k.Property = v
+			}
+		}
+		if i := strings.Index(rest, "property="+k.Property); i >= 0 {
+			k.What = strings.TrimSpace(rest[i+len("property="+k.Property):])
+		}
+		out = append(out, k)
 	}
 	return out
 }
